@@ -36,8 +36,10 @@ Proof. exact component_overrides. Qed.
 Print Assumptions C03_override_exact.
 
 Theorem C03_wellfield : forall k : cost_in,
-  (k_ppwc_valid k = false ->
+  (k_ppwc_valid k = false -> k_sbt k = false ->
      cwell k == (105 # 100) * (k_c1p_corr k * k_nprod k + k_c1i_corr k * k_ninj k + k_lateral k)) /\
+  (k_ppwc_valid k = false -> k_sbt k = true ->
+     cwell k == k_c1p_corr k * k_nprod k + k_c1i_corr k * k_ninj k + k_lateral k + k_junction k) /\
   (k_ppwc_valid k = true ->
      cwell k == k_ppwc k * k_nprod k + (if k_piwc_provided k then k_piwc k else k_ppwc k) * k_ninj k).
 Proof. exact wellfield. Qed.
@@ -86,7 +88,7 @@ Print Assumptions C03_per_well_cost.
 (* ---- non-vacuity: a run with ITC, grant and redrilling ---- *)
 Definition exk : cost_in :=
   {| k_ppwc_valid := false; k_ppwc := 0; k_piwc_provided := false; k_piwc := 0; k_nprod := 2; k_ninj := 1;
-     k_c1p_corr := 4; k_c1i_corr := 5; k_lateral := 0;
+     k_c1p_corr := 4; k_c1i_corr := 5; k_lateral := 0; k_sbt := false; k_junction := 0;
      k_stim_valid := true; k_stim_fixed := 3; k_stim_adj := 1; k_gath_valid := false; k_gath_fixed := 0; k_gath_adj := 1;
      k_cpumps := 100000; k_plant_valid := false; k_plant_fixed := 0; k_plant_corr := 40;
      k_expl_valid := false; k_expl_fixed := 0; k_expl_adj := 1; k_piping_len := 2; k_dh := 0;
